@@ -16,7 +16,9 @@ def setup():
     os.makedirs(scratch, exist_ok=True)
     os.chdir(scratch)
     import logging
+    import warnings
     logging.disable(logging.CRITICAL)
+    warnings.filterwarnings("ignore")
     import opfython
     got = os.path.dirname(os.path.dirname(os.path.abspath(opfython.__file__)))
     if os.path.realpath(got) != os.path.realpath(REPO):
